@@ -13,10 +13,10 @@ import (
 // Clause is one requires/ensures/invariant line.
 type Clause struct {
 	FromBase bool // behavior runs: clause of the base contract, already proved in the default run
-	Label string
-	Text  string
-	Expr  ast.Expr
-	Line  string // file:line of the contract text
+	Label    string
+	Text     string
+	Expr     ast.Expr
+	Line     string // file:line of the contract text
 }
 
 type LoopContract struct {
@@ -40,47 +40,56 @@ type ParamContract struct {
 // Behavior is a named case of a function contract: it is verified separately under its assumptions,
 // and exported to callers as assumes ==> ensures.
 type Behavior struct {
-	Name     string
-	Assumes  []*Clause
-	Ensures  []*Clause
-	Loops    map[int]*LoopContract
+	Name      string
+	Assumes   []*Clause
+	Ensures   []*Clause
+	Loops     map[int]*LoopContract
 	Callsites []*CallsiteClause
 }
 
 type FuncContract struct {
-	Behaviors []*Behavior
-	Key        string // normalised name: "NewConn", "Conn.Read"
-	Pkg        string // package path
-	Results    []string
-	Requires   []*Clause
-	Ensures    []*Clause
-	Modifies   []*Clause
-	Allocates  []string
-	Writes     []string
-	GhostNames []string // ghost parameters: universally quantified in the callee, instantiated by callers via bind
-	GhostTypes []string
-	Checks     []*Clause // like ensures, but may name locals of the function; checked, never assumed by callers
-	Binds      []*Bind
-	Callsites  []*CallsiteClause
-	Captures   []*Capture // names bound to results of calls, usable in check clauses
-	Loops      map[int]*LoopContract
-	Params     map[string]*ParamContract
-	Inline     bool
-	Terminates bool
-	Extern     bool
-	ExternSig  string // params text for extern
-	ParamNames []string
-	Trusted    bool // contract is assumed, body not verified
-	Line       string
-	Uses       []string // lemma names to assume inside
+	Behaviors      []*Behavior
+	Key            string // normalised name: "NewConn", "Conn.Read"
+	Pkg            string // package path
+	Results        []string
+	Requires       []*Clause
+	Ensures        []*Clause
+	Modifies       []*Clause
+	Allocates      []string
+	Writes         []string
+	GhostNames     []string // ghost parameters: universally quantified in the callee, instantiated by callers via bind
+	GhostTypes     []string
+	Checks         []*Clause // like ensures, but may name locals of the function; checked, never assumed by callers
+	Binds          []*Bind
+	Callsites      []*CallsiteClause
+	Captures       []*Capture // names bound to results of calls, usable in check clauses
+	Loops          map[int]*LoopContract
+	Params         map[string]*ParamContract
+	Inline         bool
+	Terminates     bool
+	Extern         bool
+	ExternSig      string // params text for extern
+	ParamNames     []string
+	Trusted        bool // contract is assumed, body not verified
+	Line           string
+	Uses           []string // lemma names to assume inside
 	NoSharedAppend bool
-	IterBody       bool // the function returns a function literal (iterator): its body is verified as part of this unit
+	GhostSets      []*GhostSet // ghost assignments performed at the function's exit (definitional, not proof obligations)
+	IterBody       bool        // the function returns a function literal (iterator): its body is verified as part of this unit
+}
+
+// GhostSet is "ghostset g(key) = value": at every exit the ghost cell g(key) is assigned value (both evaluated in the
+// post-state, before the assignment). The cell must be named in the modifies clause.
+type GhostSet struct {
+	Target *Clause // g(key)
+	Value  *Clause
 }
 
 // CallsiteClause is an obligation on the arguments of a call made by the function (matched by the call's source text prefix).
 type CallsiteClause struct {
 	CallText string
 	Req      *Clause
+	Stmt     bool // "at": the text is the beginning of a statement; the clause is proved just before it and then assumed
 }
 
 // Capture names the i-th result of the (last executed) call whose source text starts with CallText.
@@ -98,19 +107,19 @@ type Bind struct {
 }
 
 type PureDef struct {
-	Name      string
-	Pkg       string
-	ParamsTxt string
-	ParamName []string
-	ParamType []string
-	ResType   string
-	Body      *Clause
-	Rec       bool
+	Name       string
+	Pkg        string
+	ParamsTxt  string
+	ParamName  []string
+	ParamType  []string
+	ResType    string
+	Body       *Clause
+	Rec        bool
 	Triggers   []*Clause
 	InductVar  string
 	InductUpto *Clause
-	Opaque    bool // declared only (uninterpreted), axioms given separately
-	Line      string
+	Opaque     bool // declared only (uninterpreted), axioms given separately
+	Line       string
 }
 
 type GhostDef struct {
@@ -124,11 +133,11 @@ type GhostDef struct {
 }
 
 type AxiomDef struct {
-	Name string
-	Pkg  string
-	Body *Clause
+	Name  string
+	Pkg   string
+	Body  *Clause
 	Lemma bool
-	Uses []string
+	Uses  []string
 }
 
 type Contracts struct {
@@ -166,7 +175,7 @@ var clauseKeywords = map[string]bool{
 	"writes": true, "loop": true, "invariant": true, "decreases": true, "param": true,
 	"inline": true, "terminates": true, "pure": true, "purerec": true, "axiom": true,
 	"ghost": true, "ghostfn": true, "lemma": true, "extern": true, "functype": true,
-	"trusted": true, "opaque": true, "noshare": true, "ghostparam": true, "check": true, "bind": true, "behavior": true, "assumes": true, "callsite": true, "capture": true, "iterbody": true, "index": true, "use": true,
+	"trusted": true, "opaque": true, "noshare": true, "ghostparam": true, "check": true, "bind": true, "behavior": true, "assumes": true, "callsite": true, "capture": true, "iterbody": true, "index": true, "use": true, "ghostset": true, "at": true,
 }
 
 // rewriteImplies converts "A ==> B" to "implies(A, B)" and "A <==> B" to "iff(A,B)" at every nesting level.
@@ -509,8 +518,9 @@ func (cs *Contracts) loadFile(path, pkgPath string) error {
 				return err
 			}
 			cur.Checks = append(cur.Checks, c)
-		case "callsite":
+		case "callsite", "at":
 			// callsite "call text prefix" requires[label] expr
+			// at "statement text prefix" assert[label] expr
 			rest := strings.TrimSpace(l.rest)
 			if !strings.HasPrefix(rest, "\"") {
 				return fmt.Errorf("%s: callsite syntax: callsite \"text\" requires[label] expr", l.where)
@@ -521,14 +531,18 @@ func (cs *Contracts) loadFile(path, pkgPath string) error {
 			}
 			callText := rest[1 : 1+j]
 			rest = strings.TrimSpace(rest[2+j:])
-			if !strings.HasPrefix(rest, "requires") {
-				return fmt.Errorf("%s: callsite needs requires", l.where)
+			kwd := "requires"
+			if l.kw == "at" {
+				kwd = "assert"
 			}
-			c, err := mkClause(strings.TrimPrefix(rest, "requires"), l.where)
+			if !strings.HasPrefix(rest, kwd) {
+				return fmt.Errorf("%s: %s needs %s", l.where, l.kw, kwd)
+			}
+			c, err := mkClause(strings.TrimPrefix(rest, kwd), l.where)
 			if err != nil {
 				return err
 			}
-			cc := &CallsiteClause{CallText: callText, Req: c}
+			cc := &CallsiteClause{CallText: callText, Req: c, Stmt: l.kw == "at"}
 			if curBeh != nil {
 				curBeh.Callsites = append(curBeh.Callsites, cc)
 			} else {
@@ -549,6 +563,28 @@ func (cs *Contracts) loadFile(path, pkgPath string) error {
 				return fmt.Errorf("%s: capture needs name = index", l.where)
 			}
 			cur.Captures = append(cur.Captures, &Capture{CallText: callText, Name: nm, Index: idx})
+		case "ghostset":
+			k := strings.Index(l.rest, "=")
+			for k >= 0 && k+1 < len(l.rest) && (l.rest[k+1] == '=' || (k > 0 && strings.ContainsRune("!<>=", rune(l.rest[k-1])))) {
+				n := strings.Index(l.rest[k+2:], "=")
+				if n < 0 {
+					k = -1
+					break
+				}
+				k += 2 + n
+			}
+			if k < 0 || cur == nil {
+				return fmt.Errorf("%s: ghostset syntax: ghostset g(key) = value", l.where)
+			}
+			tc, err := mkClause(strings.TrimSpace(l.rest[:k]), l.where)
+			if err != nil {
+				return err
+			}
+			vc, err := mkClause(strings.TrimSpace(l.rest[k+1:]), l.where)
+			if err != nil {
+				return err
+			}
+			cur.GhostSets = append(cur.GhostSets, &GhostSet{Target: tc, Value: vc})
 		case "bind":
 			// bind "call text" name = expr
 			rest := strings.TrimSpace(l.rest)
@@ -572,7 +608,17 @@ func (cs *Contracts) loadFile(path, pkgPath string) error {
 			cur.Binds = append(cur.Binds, &Bind{CallText: callText, Name: strings.TrimSpace(rest[:k]), Value: c})
 		case "requires", "ensures", "invariant", "decreases", "modifies":
 			if l.kw == "modifies" {
+				var parts []string
 				for _, p := range splitTop(l.rest, ",") {
+					// mapOf(m): the contents of map m (presence, values, length)
+					if t := strings.TrimSpace(p); strings.HasPrefix(t, "mapOf(") && strings.HasSuffix(t, ")") {
+						in := t[len("mapOf(") : len(t)-1]
+						parts = append(parts, "mapHas("+in+")", "mapVal("+in+")", "mapLen("+in+")")
+						continue
+					}
+					parts = append(parts, p)
+				}
+				for _, p := range parts {
 					c, err := mkClause(p, l.where)
 					if err != nil {
 						return err
